@@ -90,8 +90,8 @@ class Interp:
         """remember the manager thread object once it exists."""
         for info in self.obs.executors.values():
             if info["wref"]() is ex:
-                if info["mgr"] is None:
-                    info["mgr"] = ex._executor_manager_thread
+                if info["mgr"] is None and ex._executor_manager_thread is not None:
+                    info["mgr"] = weakref.ref(ex._executor_manager_thread)
                 info["all_pids"].update(ex._processes)
                 return info
 
@@ -167,7 +167,7 @@ class Interp:
         if prev is not None and prev is not ex:
             for info in self.obs.executors.values():
                 if info["ident"] == prev_state["ident"] and info["wref"]() is prev:
-                    mgr = info["mgr"]
+                    mgr = info["mgr"]() if info["mgr"] is not None else None
                     alive_old = dict(
                         mgr_alive=bool(mgr is not None and mgr.is_alive()),
                         pending=len(info["pending"]),
@@ -312,7 +312,7 @@ class Interp:
         k = rt.RT.kernel
         if info is None:
             return {}
-        mgr = info["mgr"]
+        mgr = info["mgr"]() if info["mgr"] is not None else None
         pids = sorted(info["all_pids"])
         desc = []
         for pid in pids:
@@ -346,6 +346,10 @@ class Interp:
             rt.safe_collect()
             collected = wr() is None
         return {"collected": collected}
+
+    def op_gc(self, th, o):
+        rt.safe_collect()
+        return {}
 
     def op_sleep(self, th, o):
         rt.RT.sched.sleep(o["d"])
